@@ -1600,7 +1600,13 @@ func c18CsMuts() []c18CsMut {
 	add("inv-ts-outside-past", 3, func(o *c18CsOp) { dt(o, -(o.tol + 1)) })
 	add("inv-ts-far-future", 1, func(o *c18CsOp) { dt(o, o.r.Pick(o.tol+100, 100000, 1<<33)) })
 	add("inv-ts-far-past", 1, func(o *c18CsOp) { dt(o, -o.r.Pick(o.tol+100, 100000, 1<<33)) })
-	add("eq-ts-anywhere-inside", 2, func(o *c18CsOp) { dt(o, o.r.Range(-o.tol+2, o.tol-2)) })
+	add("eq-ts-anywhere-inside", 2, func(o *c18CsOp) {
+		if o.tol < 3 { // a zero / negative tolerance has no inside
+			dt(o, 0)
+			return
+		}
+		dt(o, o.r.Range(-o.tol+2, o.tol-2))
+	})
 	add("inv-ts-signed-differs", 2, func(o *c18CsOp) { o.extra["sdt"] = strconv.Itoa(o.r.Pick(1, -1, 10)) })
 	add("inv-ts-missing", 1, func(o *c18CsOp) { o.plain = "version=v1; type=" + o.typ + "; key=" + o.keyB64() })
 	add("inv-ts-malformed", 2, func(o *c18CsOp) {
@@ -1885,6 +1891,9 @@ func c18GenCs(r *verifh.Rng, plan *c18Plan, muts []c18CsMut, weights []int, forc
 		strict = 0
 	}
 	tol := r.Pick(5, 60, 3600)
+	if r.Chance(1, 9) {
+		tol = r.Pick(0, -5) // zero: only the very second passes; negative: nothing passes
+	}
 	limit := r.Pick(1<<20, 1<<20, 1<<20, 64, 128)
 	var limitMuts []int
 	if forceLimit > 0 {
